@@ -25,6 +25,17 @@ Theorem C03_trexp_so3_is_expm_series_Reals : forall (u : V3 R) (th : R), normsq3
 Proof. intros u th Hu i j Hi Hj. apply is_pseries_Reals. exact (rodrigues_is_expm_series u th i j Hu Hi Hj). Qed.
 Print Assumptions C03_trexp_so3_is_expm_series_Reals.
 
+(* the same for the generator given WITHOUT theta: W = [theta u]x, any theta, |u| = 1 -- the exponential series of the matrix W itself
+   (power series evaluated at 1) sums to Rodrigues(u, theta), which is what trexp returns for the vector w = theta u *)
+Theorem C03_trexp_so3_general_is_expm_series : forall (u : V3 R) (th : R), normsq3 Rops u = 1 ->
+  forall i j, (i < 3)%nat -> (j < 3)%nat ->
+  is_series (fun k => e33 (mpow33 (skew3 Rops (vscale3 Rops th u)) k) i j / INR (fact k)) (e33 (rodrigues_th Rops u th) i j).
+Proof.
+  intros u th Hu i j Hi Hj. pose proof (rodrigues_is_exp_of_scaled_generator u th i j Hu Hi Hj) as H.
+  apply is_pseries_R in H. apply is_series_ext with (2 := H). intro n. unfold expm_coeff. rewrite pow1. apply Rmult_1_r.
+Qed.
+Print Assumptions C03_trexp_so3_general_is_expm_series.
+
 (* se(3), all 16 entries: trexp(S, theta) on a unit twist S = (v, w), |w| = 1 (the model's [trexp_unit]: rotation block Rodrigues,
    translation V(theta) v, last row 0 0 0 1) is the sum of the exponential series of theta [S], [S] = se3_hat S the 4x4 twist matrix *)
 Theorem C03_trexp_se3_is_expm_series : forall (v0 v1 v2 w0 w1 w2 th : R),
